@@ -685,6 +685,13 @@ def fam_tree(v, n, model):
             ops.append({"op": "world", "w": wid, "do": "find_all", "s": s1})
             ops.append({"op": "world", "w": wid, "do": "find_all", "s": rng.choice([s1, "*"]), "all_config": rng.choice(["review", "x"])})
             ops.append({"op": "world", "w": wid, "do": "find_all", "s": s2})
+        # an EXISTING concrete Sid with a filter that cannot be applied (foreign key, deeper key): the
+        # query stays un-applied, the expression denotes nothing, no Finder may answer through a shortcut
+        for label, fields in rng.sample(leaves, min(2, len(leaves))):
+            i = rng.randint(2, len(fields))
+            s0 = "/".join(val for _, val in fields[:i])
+            for q in ("foo=bar", "%s=%s" % (fields[-1][0], fields[-1][1]) if i < len(fields) else "nokey=x"):
+                ops.append({"op": "world", "w": wid, "do": rng.choice(["find_paths", "find_all"]), "s": s0 + "?" + q, **({"config": cfg})})
         for s in confusing:     # a file whose NAME fits the name pattern of a search it does not match
             ops.append({"op": "world", "w": wid, "do": "find_paths", "s": s, "config": cfg})
             ops.append({"op": "world", "w": wid, "do": "find_all", "s": s})
